@@ -248,11 +248,7 @@ Proof. exact vtt_to_ttml_styled. Qed.
 Theorem C07_ssa_to_ttml_styled : forall d, repr_doc (conv_ssa_ttml d) = true -> legal_doc (conv_ssa_ttml d) = true ->
   exists b, to_ttml_bytes (conv_ssa_ttml d) = Ok b /\ ttml_dec2 b = Ok (ptrunc 1000000 (ssa_to_plain d)).
 Proof. exact ssa_to_ttml_styled. Qed.
-(* EBU STL: the GSI block's frame rate, programme title and mapped language reach the TTML writer as metadata (title as
-   ttm:title, language as xml:lang) - the reason why stl->ttml is not the plain-view conversion *)
-Theorem C07_stl_to_ttml_styled : forall d, repr_doc (conv_stl_ttml d) = true -> legal_doc (conv_stl_ttml d) = true ->
-  exists b, to_ttml_bytes (conv_stl_ttml d) = Ok b /\ ttml_dec2 b = Ok (ptrunc 1000000 (stl_to_plain d)).
-Proof. exact stl_to_ttml_styled. Qed.
+(* EBU STL sources: C07_convert_stl_ttml below (Model/ConvStlTtml.v: metadata and the runs' colour reach the writer) *)
 (* file to file *)
 Theorem C07_convert_srt_ttml_styled : forall data l, read_srt data = Ok l ->
   repr_doc (conv_srt_ttml l) = true -> legal_doc (conv_srt_ttml l) = true ->
@@ -267,7 +263,6 @@ End C07_TTML.
 Print Assumptions C07_TTML.C07_srt_to_ttml_styled.
 Print Assumptions C07_TTML.C07_vtt_to_ttml_styled.
 Print Assumptions C07_TTML.C07_ssa_to_ttml_styled.
-Print Assumptions C07_TTML.C07_stl_to_ttml_styled.
 (* ---- styled conversions into EBU STL (Model/ConvStl.v, Proofs/ConvStlProofs.v).  conv_S_stl = what WriteToSTL sees of a cue
    list the S reader produced: no reader sets an STL attribute, so the times and, per line, the texts of the line items
    (joined by the writer with a blank), plus of the metadata the title (SSA script info, TTML), the frame rate and the
